@@ -173,7 +173,12 @@ def fam_batch(w: World) -> None:
             w.violate('C08.batch_error', f'batch-level error {err} must be raised for the batch, got '
                       f'{_describe(outcome)}', **ctx)
         return
-    # accepted
+    _check_accepted(w, exp, outcome, reqs, via, ctx)
+
+
+def _check_accepted(w: World, exp: Dict[str, Any], outcome: Tuple[Any, ...], reqs: List[Any], via: str,
+                    ctx: Dict[str, Any]) -> None:
+    """An accepted batch reply: related links, positional and tuple attribution in call order, first failing call."""
     in_order = exp['replies_in_call_order']
     if exp['array'] != in_order:
         w.probe('accepted_reply_in_other_order')
@@ -213,6 +218,7 @@ def fam_batch(w: World) -> None:
         if tup[0] != 'raise' or not isinstance(tup[1], JsonRpcError) or not _error_matches(tup[1], first_err['error']):
             w.violate('C08.first_error', f'expected the error of the first failing call (call order) '
                       f'{first_err["error"]}, got {_describe(tup)}', **ctx)
+
 
 
 def fam_single(w: World) -> None:
@@ -283,6 +289,70 @@ def _describe(outcome: Tuple[Any, ...]) -> str:
     return f'returned {outcome[1]!r}'[:140]
 
 
+def fam_reuse(w: World) -> None:
+    """One batch object is sent, grown, and sent again: attribution must follow call order every time."""
+    ch = w.ch
+    client_async = bool(ch.draw(2, 'client_async'))
+    via = ['send', 'call'][ch.draw(2, 'via')]
+    grow = ['extend', 'append', 'getitem', 'add'][ch.draw(4, 'grow')]
+    rounds = 2 + ch.draw(2, 'rounds')
+    sizes = [1 + ch.draw(3, 'size') for _ in range(rounds)]
+    total = sum(sizes)
+    ids = (ch.shuffle(ID_POOL, 'ids') + [100, 101, 102, 103])[:total]
+    perms = [ch.shuffle(list(range(sum(sizes[:r + 1]))), 'perm') for r in range(rounds)]
+    w.scenario = {'client_async': client_async, 'via': via, 'grow': grow, 'sizes': sizes, 'ids': ids, 'perms': perms}
+    w.nontrivial = True
+    script = [{'resp': ('permute', perm)} for perm in perms]
+    st = Stack(w, client_async, bool(ch.draw(2, 'server_async')), client_kwargs={'strict': True}, script=script)
+    b = st.client.batch
+    breq = pjrpc.BatchRequest()
+    if via == 'call' or grow in ('getitem', 'add'):
+        b._requests = breq
+    reqs: List[Any] = []
+    k = 0
+    for r in range(rounds):
+        new = [pjrpc.Request('echo', [f't{k + j}', k + j], ids[k + j]) for j in range(sizes[r])]
+        k += sizes[r]
+        if grow == 'extend' or (grow in ('getitem', 'add') and r == 0 and False):
+            breq.extend(new)
+        elif grow == 'append':
+            for q in new:
+                breq.append(q)
+        elif grow == 'add':
+            gen_ids = iter([q.id for q in new])
+            b._id_gen = gen_ids
+            for q in new:
+                b.add('echo', *q.params)
+            new = list(b._requests)[len(reqs):]
+        else:  # getitem: extends the wrapper's own request list (and calls); used for all but the measured send
+            b._id_gen = iter([q.id for q in new])
+            b._requests.extend([pjrpc.Request('echo', list(q.params), next(b._id_gen)) for q in new])
+            new = list(b._requests)[len(reqs):]
+        reqs += new
+        target = b._requests if (via == 'call' or grow in ('getitem', 'add')) else breq
+        ctx = {'fault': 'permute', 'strict': True, 'via': via, 'client_async': client_async, 'kind': 'reuse',
+               'round': r, 'grow': grow}
+        try:
+            if via == 'send':
+                outcome: Tuple[Any, ...] = ('value', st.run(lambda: b.send(target)))
+            else:
+                outcome = ('value', st.run(lambda: b.call()))
+        except Exception as e:  # noqa: BLE001
+            outcome = ('raise', e)
+        deliver = [x for x in w.history if x['kind'] == 'wire.deliver']
+        reply_text = deliver[-1]['text'] if deliver else None
+        sent_doc = json.loads(st.net.sent[-1])
+        exp = RC.match_batch(sent_doc, reply_text, True)
+        if exp['verdict'] != 'accept':
+            w.violate('C08.accept', f'round {r}: reference verdict {exp["verdict"]} for a permuted true reply', **ctx)
+            return
+        if exp['array'] != exp['replies_in_call_order']:
+            w.probe('reuse.reply_in_other_order')
+        _check_accepted(w, exp, outcome, reqs, via, ctx)
+        if w.violations:
+            return
+
+
 def systematic_batch(tier: str) -> Iterable[List[int]]:
     """(n_calls x fault kind x strict x client kind x via): every combination of the structural draws."""
     max_n = 3 if tier == 'quick' else 4
@@ -302,11 +372,11 @@ def systematic_single(tier: str) -> Iterable[List[int]]:
                     yield [f, nonstrict, ca, via]
 
 
-FAMILIES = {'match.batch': fam_batch, 'match.single': fam_single}
+FAMILIES = {'match.batch': fam_batch, 'match.single': fam_single, 'match.reuse': fam_reuse}
 SYSTEMATIC = {'match.batch': systematic_batch, 'match.single': systematic_single}
 PLAN = {
-    'quick': {'match.batch': 80000, 'match.single': 32000},
-    'thorough': {'match.batch': 80000, 'match.single': 30000},
+    'quick': {'match.batch': 80000, 'match.single': 32000, 'match.reuse': 16000},
+    'thorough': {'match.batch': 80000, 'match.single': 30000, 'match.reuse': 30000},
 }
 THOROUGH_BUDGET_S = 600
 RULE = ('systematic part: every combination of (number of calls, response-fault kind, strict flag, client kind, '
